@@ -9,6 +9,7 @@ mod core;
 mod cont;
 mod csweep;
 mod docsweep;
+mod drops;
 mod flavor;
 mod gsweep;
 mod lockstep;
